@@ -22,6 +22,9 @@ let receiver_of r =
   else if r = 10 then RcvPtr false
   else RcvPtr true
 
+let elem_of_code = function
+  | 0 -> EInt | 1 -> EConstInt | 2 -> ELRef | 3 -> EConstLRef | 4 -> ERRef | 5 -> EMoveOnly | _ -> ECopyOnly
+
 let palette_sets pal =
   (* (stateless, tracked) target ids, see make_target in c20_ipf.inc *)
   match pal with
@@ -257,6 +260,29 @@ let run_case op t =
       let rec pairs = function a :: b :: r -> [ a; b ] :: pairs r | _ -> [] in
       let ops = pairs v in
       (join [ "ok"; zlist_s (tuple_cat_m z0 ops) ], join [ "ok"; zlist_s (tuple_cat_spec ops) ])
+  | "ptraits" ->
+      let e1 = elem_of_code (next_int t) in
+      let e2 = elem_of_code (next_int t) in
+      (join ("ok" :: List.map b2s (pair_traits_m e1 e2)), join ("ok" :: List.map b2s (pair_traits_spec e1 e2)))
+  | "ttraits" ->
+      let n = next_int t in
+      let es = List.init n (fun _ -> elem_of_code (next_int t)) in
+      (join ("ok" :: List.map b2s (tuple_traits_m es)), join ("ok" :: List.map b2s (tuple_traits_spec es)))
+  | "retref" ->
+      (* every wrapper returns the callable's A& result as it is: decltype(auto) / invoke_result_t of the call *)
+      let which = next_int t in
+      let r = opt_cat true (ret_decltype_auto lV) in
+      ignore which; (r, r)
+  | "refwrapops" ->
+      let a = next_z t in let b = next_z t in
+      let pr ((s, a'), b') = join [ "ok"; "1"; "1"; "1"; "1"; "1"; str_of_z s; str_of_z a'; str_of_z b' ] in
+      (pr (refwrap_ops_m a b), pr (refwrap_ops_spec a b))
+  | "frefops" ->
+      let v = next_z t in
+      (join ("ok" :: List.map str_of_z (fref_ops_m v)), join ("ok" :: List.map str_of_z (fref_ops_spec v)))
+  | "notfnstatic" ->
+      let v = next_z t in
+      (join [ "ok"; b2s (notfn_static_m v) ], join [ "ok"; b2s (notfn_static_spec v) ])
   | "ipf" ->
       let pal = next_int t in
       let nw0 = next_int t in
